@@ -7,6 +7,7 @@ from fractions import Fraction as Fr
 import mpmath
 import importlib
 c10 = importlib.import_module("props.c10")
+c04 = importlib.import_module("props.c04")
 
 
 def closed_form_cases(rng, tier):
@@ -55,6 +56,8 @@ def run(rep, rng, tier, replay=None):
         if not rel_close(b2f(fi["jacobian"]), b2f(m["jacobian"]), 1e-9) and math.isfinite(b2f(m["jacobian"])):
             rep.violation("property", "sample weight %r differs from the model weight %r (weight x proposal density is no longer the Feynman integrand)" % (
                 b2f(fi["jacobian"]), b2f(m["jacobian"])), case=c, failing_input=True, what="pointwise weight differs from the model")
+        # the constants of the weight and of the proposal: J table (sector probabilities) and I_tr Gamma(dod)/prod Gamma(w) pi^(DL/2) vs exact arithmetic
+        c04.check_exact(rep, c, timpl, False)
         # independent of the model: weight = normalisation x U(x)^(-D/2) x V(x)^(-dod) with the EXACT Symanzik polynomials at the returned parameters
         nn = SC.case_numbers(c)
         xf = SC.floats(fi["x"])
@@ -101,12 +104,17 @@ def run(rep, rng, tier, replay=None):
             rep.violation("property", "mean of jacobian over %d points = %r +- %r, closed form %r (%s, D=%d): %.1f sigma" % (n, mean, se, float(val), c["kind"], c["D"], z),
                           case=c, failing_input=True, what="estimator biased against a closed-form Feynman integral")
         if o["errors"]:
-            rep.violation("property", "%d of %d samples of an accepted massive graph returned an error" % (o["errors"], n), case=c, failing_input=True)
+            # an error is legitimate where the Gamma quantile is below 1e-13 (C12): probability P(dod, 1e-13) per sample
+            dod_c = sum(b2f(e[3]) for e in c["edges"]) - c["D"] * len(c["signature"][0]) / 2.0
+            rate = float(mpmath.gammainc(dod_c, 0, 1e-13, regularized=True)) if dod_c > 0 else 1.0
+            if o["errors"] > 5 + 10 * n * rate:
+                rep.violation("property", "%d of %d samples of an accepted massive graph returned an error (at most about %.2g are explained by a Gamma quantile below 1e-13)" % (
+                    o["errors"], n, n * rate), case=c, failing_input=True)
     rep.cov["aggregate"] = agg
     rep.cov["weights_checked_against_exact_symanzik_polynomials"] = n_exact
     rep.cov["loop_momenta_checked_against_exact_energy_identity"] = n_energy
     rep.cov["rule"] = ("pointwise: accepted connected graphs (all families, masses, shifts, 1..4 loops, D=1..6, random cycle bases); weight, loop momenta and every intermediate of the "
-                       "implementation vs the Coq model of the whole pipeline (1e-9), and the weight vs normalisation x U^(-D/2) V^(-dod) with U, V exact rationals at the returned parameters "
+                       "implementation vs the Coq model of the whole pipeline (1e-9); the sampler's J table and normalisation constant vs exact rationals / 50 digits; the weight vs normalisation x U^(-D/2) V^(-dod) with U, V exact rationals at the returned parameters "
                        "(tolerance 1e-10 x exact kappa x cancellation; beyond 1e7 skipped); aggregate: massive tadpoles (4 parameter sets), equal-mass bubbles at zero momentum, products "
                        "of tadpoles - mean of jacobian over %s pseudo-random points vs the closed form pi^(D/2) Gamma(nu-D/2)/Gamma(nu) m^(D-2nu) (alarm only beyond 8 sigma and 1%%). "
                        "non-trivial = L>=2 or a massive edge or D != 3" % ("4e4" if tier == "quick" else "4e5"))
